@@ -11,6 +11,9 @@ META = {
     "level": "Decides the structural clauses: a range is AND(version restriction[s], optional slot) negated as a whole for unaffected ranges; an entry is (OR of vulnerable ranges [AND carries one of the named arches]) AND NOT each unaffected range; ge/gt/lt/le/eq map to >=,>,<,<=,= and r-forms add the same-version (~) condition with the -r0 special cases; globs are accepted for eq only; arch '*' or empty means no arch condition and named arches are matched any-of. Reports as a known finding that the eq-glob is a raw STRING prefix of the full version (eq 1.2* also flags 1.20), not a version-component prefix. Does NOT evaluate advisories against concrete package sets.",
     "note": "",
 }
+META["technique"] += "; " + 'per-item exception isolation'
+META["level"] += " Added after the second round of independent changes: " + '(R6) a malformed <package> entry is skipped alone: the handler sits inside the package loop.'
+META["technique"] += "; " + 'generic pack G on the anchored files (optional-flag shift, closures outliving a loop iteration, single-pass iterables consumed twice, %-templates built from data, in-place writes to class-level / memoised objects, generators mutating what they yielded, memo keys that are projections)'
 MOD = "pkgcore.pkgsets.glsa"
 
 
